@@ -84,15 +84,14 @@ func r13a(c *an.Ctx) {
 			}
 			// and the endpoint is what goes into the bind map under the channel's name
 			stored := false
-			if call.Referrers() != nil {
-				for _, r := range *call.Referrers() {
-					if mu, isMu := r.(*ssa.MapUpdate); isMu && mu.Value == ssa.Value(call) && strings.HasSuffix(mu.Map.Type().String(), "channel.BindMap") {
-						if isFieldNamed(an.Strip(mu.Key), "Name") {
-							stored = true
-						}
+			an.Instrs(fn, func(in ssa.Instruction) {
+				// the endpoint may reach the store directly or through a local variable shared with the IPC branch (phi)
+				if mu, isMu := in.(*ssa.MapUpdate); isMu && strings.HasSuffix(mu.Map.Type().String(), "channel.BindMap") && isFieldNamed(an.Strip(mu.Key), "Name") {
+					if mu.Value == ssa.Value(call) || an.DerivesFrom(mu.Value, call) {
+						stored = true
 					}
 				}
-			}
+			})
 			c.Ob(fmt.Sprintf("core/task.makeTaskForMesosResources|bound-endpoint#%d", n), call.Pos(), okMin && sub && stored,
 				"the endpoint recorded for an inbound TCP channel must carry the port that was just taken from (and subtracted from) the offer, under the channel's name (port-is-allocation=%v subtracted=%v stored-under-name=%v)", okMin, sub, stored)
 		}
@@ -278,38 +277,50 @@ func r13c(c *an.Ctx) {
 			continue
 		}
 		c.Subject()
-		// blocks where a HasPrefix(target, "tcp://"|"ipc://") call is known true: the address used is the Target field, no bind map access reachable before the build call
-		build := an.Calls(fn, func(n string, _ ssa.CallInstruction) bool { return strings.HasSuffix(n, ").buildFMQMap") })
-		okTarget, prefixes := false, map[string]bool{}
+		// assume the target starts with tcp:// (then ipc://) and follow the flow: the channel map is built with the Target
+		// field as its address and nothing that is reached reads the bind map
+		prefixes := map[string]bool{}
 		for _, ci := range an.CallsNamed(fn, "strings.HasPrefix") {
 			if s, isS := an.ConstString(ci.Common().Args[1]); isS {
 				prefixes[s] = true
 			}
 		}
-		for _, b := range build {
-			addr := b.Common().Args[1]
-			if p, isP := addr.(*ssa.Phi); isP {
-				for i, e := range p.Edges {
-					pred := p.Block().Preds[i]
-					// edge from the explicit-target branch carries the Target field
-					if isFieldNamed(an.Strip(e), "Target") {
-						// that predecessor must not have touched the bind map
-						touched := false
-						for _, in := range pred.Instrs {
-							switch x := in.(type) {
-							case *ssa.Lookup:
-								if strings.HasSuffix(x.X.Type().String(), "channel.BindMap") {
-									touched = true
-								}
-							case *ssa.Range:
-								touched = true
-							}
-						}
-						if !touched {
-							okTarget = true
+		okTarget := true
+		for _, pfx := range []string{"tcp://", "ipc://"} {
+			assume := func(v ssa.Value) (bool, bool) {
+				if call, isCall := v.(*ssa.Call); isCall && an.CalleeName(&call.Call) == "strings.HasPrefix" {
+					if s, isS := an.ConstString(call.Call.Args[1]); isS && s == pfx && isFieldNamed(an.Strip(call.Call.Args[0]), "Target") {
+						return true, true
+					}
+				}
+				return false, false
+			}
+			fl := an.FlowAssume(fn.Blocks[0], assume)
+			builds := 0
+			an.Instrs(fn, func(in ssa.Instruction) {
+				if !fl.Reaches(in) {
+					return
+				}
+				switch x := in.(type) {
+				case *ssa.Lookup:
+					if strings.HasSuffix(x.X.Type().String(), "channel.BindMap") {
+						okTarget = false
+					}
+				case *ssa.Range:
+					if strings.HasSuffix(x.X.Type().String(), "channel.BindMap") {
+						okTarget = false
+					}
+				case *ssa.Call:
+					if strings.HasSuffix(an.CalleeName(&x.Call), ").buildFMQMap") {
+						builds++
+						if !isFieldNamed(an.Strip(fl.Resolve(x.Call.Args[1])), "Target") {
+							okTarget = false
 						}
 					}
 				}
+			})
+			if builds == 0 {
+				okTarget = false
 			}
 		}
 		c.Ob("(*core/task/channel."+typ+").ToFMQMap|explicit-target-passthrough", fn.Pos(), okTarget && prefixes["tcp://"] && prefixes["ipc://"],
